@@ -226,7 +226,9 @@ class UDPMessageDeserializer:
             # the meaning of the data.
             if unpacked_data.endswith(b"\x00"):
                 try:
-                    return unpacked_data.decode("utf8").rstrip("\x00")
+                    # Only strip the terminator itself, any further trailing nulls are
+                    # part of the data and need to survive re-serialization.
+                    return unpacked_data[:-1].decode("utf8")
                 except UnicodeDecodeError:
                     pass
             # Failed, return jank stringy bytes
